@@ -45,6 +45,9 @@ func ruleEntryPointsStoreNothing(w *World, r *Report, rule string) {
 				if cal := callee(info, s); cal != nil {
 					if rcv, _, ok := methodCall(s); ok {
 						if fv := fieldOf(info, rcv); fv != nil && isSyncType(fv.Type()) {
+							if cal.Name() == "Add" && isPureCounter(w, fv) {
+								return true
+							}
 							switch cal.Name() {
 							case "Store", "LoadOrStore", "Swap", "CompareAndSwap", "Do", "Add":
 								n++
@@ -626,6 +629,13 @@ func ruleFunctionIdentity(w *World, r *Report, rule string) {
 			n++
 			con := fmt.Sprintf("%s#Pointer/%d", fi.Name(), n)
 			good, how := false, ""
+			// runtime.FuncForPC(v.Pointer()): the pointer names the function for a message, it identifies nothing
+			if len(stack) >= 2 {
+				if pc, isC := stack[len(stack)-2].(*ast.CallExpr); isC && isFunc(callee(info, pc), "runtime", "", "FuncForPC") {
+					r.OK(rule, con, c.Pos(), false, "the code pointer is only used to look up the function's name (runtime.FuncForPC)")
+					return true
+				}
+			}
 			if len(stack) >= 2 {
 				switch p := stack[len(stack)-2].(type) {
 				case *ast.AssignStmt:
